@@ -554,6 +554,10 @@ class J1939_22:
                 return
 
             num_segments_all = self._snd_buffer[buffer_hash]['num_segments']
+            if (segment_num < 1) or (segment_num > num_segments_all):
+                # the requested next segment is not part of this message: there is nothing to send and
+                # entering SENDING_RTS_CTS here would never leave it again
+                return
             self._snd_buffer[buffer_hash]['next_packet_to_send'] = segment_num - 1
             segments_to_be_sent = num_segments_all - self._snd_buffer[buffer_hash]['next_packet_to_send']
             if num_segments > num_segments_all:
